@@ -715,12 +715,15 @@ Definition walk_node (n : node) : M value :=
   | NSwitch _ v cases => sv <-- eval v ;;; switch_cases sv cases
   | NLetValue _ name e => v <-- eval e ;;; _ <-- m_set name v ;;; ret VUndef
   | NLetContent _ name body => s <-- render_block body ;;; _ <-- m_set name (VStr s) ;;; ret VUndef
-  | NCall _ name alldata dat params =>
+  | NCall p name alldata dat params =>
       match find_template (r_templates (c_reg cf)) name with
       | None => fail e_notemplate
       | Some callee =>
           cd <-- call_data alldata dat ;;;
           cd' <-- call_params params cd ;;;
+          (* evalCall: s.at(node) once the params are resolved -- a param's content block has moved
+             s.node into that block; a failure inside the callee is reported at this call *)
+          _ <-- modify (fun st => set_cur st p) ;;;
           call_enter callee cd'
       end
   | NTemplate _ _ body ae _ =>
